@@ -2,6 +2,9 @@ import Tapeverif.Lemmas.SigRefine
 import Tapeverif.Model.Tools
 import Tapeverif.Model.Auth
 import Tapeverif.Lemmas.VMRun
+import Tapeverif.Lemmas.RunInstr
+import Tapeverif.Lemmas.MsRefine
+import Tapeverif.Props.C03
 /-! # C13 — signature and commitment lock builders
 
 The single-signature lock is executed symbolically on the VM model: for **every** 32-byte key,
@@ -113,5 +116,173 @@ theorem singleSigLock_accepts_iff (cfg : Cfg) (hno : cfg.sigExts = []) (pk : Byt
     · intro h
       cases h
       exact ⟨this.2, by rw [this.1]; rfl⟩
+
+/-! ### the other signature / commitment locks -/
+
+section more
+variable (cfg : Cfg)
+
+/-- the outcome of the second single-signature layout (key committed by a 20-byte SHAKE-256 hash) -/
+def singleSig2Spec (cache : List (CKey × CVal)) (pk pk' sig : Bytes) (flags : Nat) (st : List Bytes) : Except Err (List Bytes) :=
+  if H.shake256 pk 20 = H.shake256 pk' 20 then
+    match SigPure.checkSig H C cfg.lim.maxItemSize cache flags sig pk' with
+    | .ok b => .ok (boolBytes b :: st)
+    | .error e => .error (.user e)
+  else .error (.user .see)
+
+/-- **C13, single-signature lock, layout 2: exact outcome.** The witness supplies `sig` and a
+    key `pk'`: unless `pk'` hashes to the committed hash the run is an error; otherwise it ends
+    with exactly the C02 verdict of `sig` under `pk'`. -/
+theorem singleSigLock2_run (hno : cfg.sigExts = []) (hH : ∀ x, (H.shake256 x 20).length = 20)
+    (pk pk' sig : Bytes) (flags : Nat) (st : List Bytes) (sh : Shared) (count : Nat)
+    (hpk' : pk'.length ≤ cfg.lim.maxItemSize) (hfl : flags < 256)
+    (hs : sh.stack = pk' :: sig :: st) (hr : sh.returned = false)
+    (hsz : 20 ≤ cfg.lim.maxItemSize) (hroom : st.length + 4 ≤ cfg.lim.maxItems) :
+    Ends (instrTable H C cfg) cfg.lim (topFrame (singleSigLock2 H pk flags) count) sh
+      (fun r => Res.summary r = singleSig2Spec H C cfg sh.cache pk pk' sig flags st) := by
+  have hb : singleSigLock2 H pk flags = DUP ++ (SHAKE256 20 ++ (pushB (H.shake256 pk 20) ++ (EQUAL_VERIFY ++ CHECK_SIG flags))) := by
+    simp only [singleSigLock2, List.append_assoc]
+  rw [hb]
+  unfold topFrame
+  generalize hlen : (DUP ++ (SHAKE256 20 ++ (pushB (H.shake256 pk 20) ++ (EQUAL_VERIFY ++ CHECK_SIG flags)))).length = len
+  have hcap : len < len + 1 := by omega
+  refine Ends.step (fun r h => run_dup H C cfg _ sh _ pk' (sig :: st) r rfl hcap hr hs hpk' (by simp; omega) h) ?_
+  dsimp only
+  refine Ends.step (fun r h => run_shake256 H C cfg _ _ _ 20 pk' (pk' :: sig :: st) r rfl (by omega) hcap hr rfl (by rw [hH]; omega) (by simp; omega) h) ?_
+  dsimp only
+  refine Ends.step (fun r h => run_pushB H C cfg _ _ (H.shake256 pk 20) _ r (by rw [hH]; omega) (by rw [hH]; omega) rfl hcap hr (by rw [hH]; omega) (by simp; omega) h) ?_
+  dsimp only
+  unfold singleSig2Spec
+  by_cases heq : H.shake256 pk 20 = H.shake256 pk' 20
+  · rw [if_pos heq]
+    refine Ends.step (fun r h => run_equal_verify_ok H C cfg _ _ _ (H.shake256 pk 20) (H.shake256 pk' 20) (pk' :: sig :: st) r rfl hcap hr rfl heq (by omega) (by simp; omega) h) ?_
+    dsimp only
+    refine ⟨_, run_checksig_last H C cfg hno _ _ flags pk' sig st rfl hfl hcap hr rfl (by omega) (by omega), ?_⟩
+    cases SigPure.checkSig H C cfg.lim.maxItemSize sh.cache flags sig pk' <;> rfl
+  · rw [if_neg heq]
+    exact ⟨_, run_equal_verify_fail H C cfg _ _ _ (H.shake256 pk 20) (H.shake256 pk' 20) (pk' :: sig :: st) rfl hcap hr rfl heq (by omega) (by simp; omega), rfl⟩
+
+
+/-- the outcome of the m-of-n multisignature lock: the C03 specification on the witness's
+    signatures (as popped, last pushed first) and the lock's keys (as popped, last listed first) -/
+def multisigSpec (cache : List (CKey × CVal)) (pks sigs : List Bytes) (flags : Nat) (st : List Bytes) : Except Err (List Bytes) :=
+  match SigPure.multisig H C cfg.lim.maxItemSize cache flags sigs pks.reverse with
+  | .ok b => .ok (boolBytes b :: st)
+  | .error e => .error (.user e)
+
+/-- **C13, m-of-n multisignature lock: exact outcome.** Running `make_multisig_lock(pks, m)` on a
+    stack holding `m` signature items above `st` ends with exactly the C03 specification
+    `SigPure.multisig` of those signatures against the lock's keys — so by C03 it is true only if
+    the signatures are pairwise distinct and matched to `m` *different* listed keys. -/
+theorem multisigLock_run (hno : cfg.sigExts = []) (pks sigs : List Bytes) (m flags : Nat) (lock : Bytes)
+    (hlock : multisigLock pks m flags = some lock)
+    (st : List Bytes) (sh : Shared) (count : Nat)
+    (hpk : ∀ k ∈ pks, k.length = 32) (hn : pks.length < 256) (hm : m < 256) (hfl : flags < 256)
+    (hsl : sigs.length = m) (hsigs : ∀ s ∈ sigs, s.length ≤ cfg.lim.maxItemSize)
+    (hs : sh.stack = sigs ++ st) (hr : sh.returned = false)
+    (hsz : 32 ≤ cfg.lim.maxItemSize) (hroom : st.length + sigs.length + pks.length + 2 ≤ cfg.lim.maxItems) :
+    Ends (instrTable H C cfg) cfg.lim (topFrame lock count) sh
+      (fun r => Res.summary r = multisigSpec H C cfg sh.cache pks sigs flags st) := by
+  have hb : lock = pks.flatMap pushB ++ (70 :: UInt8.ofNat flags :: UInt8.ofNat m :: UInt8.ofNat pks.length :: []) := by
+    unfold multisigLock at hlock
+    split at hlock
+    · injection hlock with hl
+      rw [← hl]
+      simp [opc, List.append_assoc]
+    · cases hlock
+  rw [hb]
+  unfold topFrame
+  generalize hlen : (pks.flatMap pushB ++ (70 :: UInt8.ofNat flags :: UInt8.ofNat m :: UInt8.ofNat pks.length :: [])).length = len
+  have hcap : len < len + 1 := by omega
+  refine Ends.step (fun r h => run_pushes H C cfg pks _ sh _ r rfl hcap hr
+    (fun v hv => by have := hpk v hv; omega) (by rw [hs]; simp; omega) h) ?_
+  dsimp only
+  unfold multisigSpec
+  have hinstr : ∀ r,
+      (match SigPure.multisig H C cfg.lim.maxItemSize sh.cache flags sigs pks.reverse with
+       | .ok b => r = Res.ok { rest := [], count := count, fn := none, dict := 0, len0 := len, cap := len + 1 }
+            { sh with stack := boolBytes b :: st }
+       | .error e => r = .err (.user e) { sh with stack := st }) →
+      Steps (instrTable H C cfg) cfg.lim (instrTable H C cfg 70)
+        { rest := [UInt8.ofNat flags, UInt8.ofNat m, UInt8.ofNat pks.length], count := count, fn := none, dict := 0, len0 := len, cap := len + 1 }
+        { sh with stack := pks.reverse ++ sh.stack } r := by
+    intro r hr'
+    show Steps _ _ (opCheckMultisig H C cfg .done) _ _ _
+    refine C03.checkMultisig_instruction H C cfg hno _ .done _ _ flags m pks.length [] pks.reverse sigs st r hfl hm hn rfl
+      (by simp) hsl (by simp [hs]) (fun x hx => by
+        rcases List.mem_append.mp hx with h1 | h1
+        · have := hpk x (by simpa using h1); omega
+        · exact hsigs x h1) (by omega) (by omega) ?_
+    dsimp only
+    cases hms : SigPure.multisig H C cfg.lim.maxItemSize sh.cache flags sigs pks.reverse with
+    | error e => rw [hms] at hr'; exact hr'
+    | ok b => rw [hms] at hr'; simp only at hr' ⊢; rw [hr']; exact Steps.done _ _
+  cases hms : SigPure.multisig H C cfg.lim.maxItemSize sh.cache flags sigs pks.reverse with
+  | error e =>
+    have := hinstr (.err (.user e) { sh with stack := st }) (by rw [hms])
+    exact ⟨_, TSteps.cons_err 70 _ rfl hcap hr this, rfl⟩
+  | ok b =>
+    have := hinstr _ (by rw [hms])
+    exact ⟨_, TSteps.cons_ok 70 _ rfl hcap hr this (TSteps.nil rfl), rfl⟩
+
+
+/-- the frame of a top-level script that has been read to its end -/
+def endOf (script : Bytes) (count : Nat) : Frame := { topFrame script count with rest := [] }
+
+/-- **C13, script-hash lock, a different script.** A supplied script that does not hash to the
+    committed hash ends the lock with an error before `OP_EVAL`: only the stack changed, so no
+    instruction of the supplied script ran. -/
+theorem scripthashLock_rejects (hs : Nat) (hhs : hs < 256) (hH : ∀ x, (H.shake256 x hs).length = hs) (hhs0 : 0 < hs)
+    (script script' : Bytes) (st : List Bytes) (sh : Shared) (count : Nat)
+    (hsc : script'.length ≤ cfg.lim.maxItemSize) (hstk : sh.stack = script' :: st) (hr : sh.returned = false)
+    (hsz : hs ≤ cfg.lim.maxItemSize) (hroom : st.length + 3 ≤ cfg.lim.maxItems)
+    (hne : H.shake256 script hs ≠ H.shake256 script' hs) :
+    TSteps (instrTable H C cfg) cfg.lim (topFrame (scripthashLock H script hs) count) sh
+      (.err (.user .see) { sh with stack := script' :: st }) := by
+  have hb : scripthashLock H script hs = DUP ++ (SHAKE256 hs ++ (pushB (H.shake256 script hs) ++ (EQUAL_VERIFY ++ EVAL))) := by
+    simp only [scripthashLock, List.append_assoc]
+  rw [hb]
+  unfold topFrame
+  generalize hlen : (DUP ++ (SHAKE256 hs ++ (pushB (H.shake256 script hs) ++ (EQUAL_VERIFY ++ EVAL)))).length = len
+  have hcap : len < len + 1 := by omega
+  refine run_dup H C cfg _ sh _ script' st _ rfl hcap hr hstk hsc (by omega) ?_
+  dsimp only
+  refine run_shake256 H C cfg _ _ _ hs script' (script' :: st) _ rfl hhs hcap hr rfl (by rw [hH]; omega) (by simp; omega) ?_
+  dsimp only
+  refine run_pushB H C cfg _ _ (H.shake256 script hs) _ _ (by rw [hH]; omega) (by rw [hH]; omega) rfl hcap hr (by rw [hH]; omega) (by simp; omega) ?_
+  dsimp only
+  exact run_equal_verify_fail H C cfg _ _ _ (H.shake256 script hs) (H.shake256 script' hs) (script' :: st) rfl hcap hr rfl hne (by omega) (by simp; omega)
+
+/-- **C13, script-hash lock, the committed script (or any script with the same hash).** The lock
+    ends exactly as the supplied script does when evaluated on the remaining stack. -/
+theorem scripthashLock_accepts (hev : cfg.disallowEval = false) (hs : Nat) (hhs : hs < 256) (hH : ∀ x, (H.shake256 x hs).length = hs) (hhs0 : 0 < hs)
+    (script script' : Bytes) (st : List Bytes) (sh : Shared) (count : Nat) (rL : Res)
+    (hsc : script'.length ≤ cfg.lim.maxItemSize) (hne' : script' ≠ []) (hstk : sh.stack = script' :: st) (hr : sh.returned = false)
+    (hsz : hs ≤ cfg.lim.maxItemSize) (hroom : st.length + 3 ≤ cfg.lim.maxItems) (hcnt : count < cfg.lim.callLimit)
+    (heq : H.shake256 script hs = H.shake256 script' hs)
+    (hL : TSteps (instrTable H C cfg) cfg.lim (evalFrame script' count (copyDict { sh with stack := st } 0).1)
+            (copyDict { sh with stack := st } 0).2 rL) :
+    TSteps (instrTable H C cfg) cfg.lim (topFrame (scripthashLock H script hs) count) sh
+      (wrapEval cfg.evalReturn (endOf (scripthashLock H script hs) count) rL) := by
+  have hb : scripthashLock H script hs = DUP ++ (SHAKE256 hs ++ (pushB (H.shake256 script hs) ++ (EQUAL_VERIFY ++ EVAL))) := by
+    simp only [scripthashLock, List.append_assoc]
+  rw [hb]
+  unfold endOf topFrame
+  generalize hlen : (DUP ++ (SHAKE256 hs ++ (pushB (H.shake256 script hs) ++ (EQUAL_VERIFY ++ EVAL)))).length = len
+  have hcap : len < len + 1 := by omega
+  refine run_dup H C cfg _ sh _ script' st _ rfl hcap hr hstk hsc (by omega) ?_
+  dsimp only
+  refine run_shake256 H C cfg _ _ _ hs script' (script' :: st) _ rfl hhs hcap hr rfl (by rw [hH]; omega) (by simp; omega) ?_
+  dsimp only
+  refine run_pushB H C cfg _ _ (H.shake256 script hs) _ _ (by rw [hH]; omega) (by rw [hH]; omega) rfl hcap hr (by rw [hH]; omega) (by simp; omega) ?_
+  dsimp only
+  refine run_equal_verify_ok H C cfg _ _ _ (H.shake256 script hs) (H.shake256 script' hs) (script' :: st) _ rfl hcap hr rfl heq (by omega) (by simp; omega) ?_
+  dsimp only
+  refine tape_single _ _ 45 [] _ rfl cfg.evalReturn rL (by simp [EVAL, opc]) hcap hr ?_
+  show Steps _ _ (opEval cfg .done) _ _ _
+  exact eval_done cfg hev _ _ _ script' st rL rfl hne' (by simpa [getCount] using hcnt) (by simpa [getCount] using hL)
+
+
+end more
 
 end TV.C13
